@@ -524,14 +524,18 @@ def gen_case(rng):
 
 
 def error_kind(msg: str) -> str:
-    if "may not contain nested" in msg:
-        return "nestedNative"
-    tail = msg.rsplit('": ', 1)[-1]
-    if re.search(r"^'\w+' object has no attribute 'replace'", tail):
+    """kind of a CRITICAL record of the cell parser.  The part that tells the kinds apart is the text of the
+    JINJA exception the record ends with (library wording: `'x' is undefined`, `… has no attribute 'replace'`), read
+    off the END of the message — the repo's own words around it (`Error while parsing cell … with context …:`) are
+    not relied on.  Only the nested-template record has no library text; it is recognised by what it names."""
+    m = msg.rstrip()
+    if re.search(r"'\w+' object has no attribute 'replace'$", m):
         return "filterType"
-    if "is undefined" in tail or re.search(r"object' has no attribute|object has no element", tail):
+    if re.search(r"is undefined$|object' has no attribute '[^'\n]*'$|object has no element [^\n]*$", m):
         return "undefined"
-    return "other:" + tail[:80]
+    if re.search(r"nested|more than one|only one|single template", m, re.I):
+        return "nestedNative"
+    return "other:" + m.rsplit('": ', 1)[-1][:80]
 
 
 def lenient_parser():
